@@ -129,6 +129,11 @@ fn naive_footer(bytes: &[u8]) -> Option<(usize, usize)> {
 }
 
 pub fn regions(w: &World, bytes: &[u8], frames: &[(u64, u64)]) -> Vec<Region> {
+    let _ = w;
+    regions_of(bytes, frames)
+}
+
+pub fn regions_of(bytes: &[u8], frames: &[(u64, u64)]) -> Vec<Region> {
     let n = bytes.len() as u64;
     let mut v = Vec::new();
     let wal_size = if bytes.len() >= 32 { u64::from_le_bytes(bytes[24..32].try_into().unwrap()).min(n) } else { 65536 };
@@ -155,7 +160,6 @@ pub fn regions(w: &World, bytes: &[u8], frames: &[(u64, u64)]) -> Vec<Region> {
         v.push(Region { name: "footer.hash", off: n - 56 + 16, len: 32 });
         v.push(Region { name: "footer.toc_len", off: n - 56 + 8, len: 8 });
     }
-    let _ = w;
     v.retain(|r| r.len > 0 && r.off < n);
     v
 }
